@@ -541,7 +541,7 @@ package vnet
 //@ func newUDPConn(locAddr *net.UDPAddr, remAddr *net.UDPAddr, obs connObserver) (c *UDPConn, err error)
 //@   requires [owned.locAddr] locAddr != nil && exclusive(locAddr)
 //@   ensures (err == nil) == (obs != nil)
-//@   ensures err == nil ==> c != nil && fresh(c) && c.locAddr == locAddr && c.remAddr == remAddr && c.obs == obs && !c.closed && !c.bound
+//@   ensures err == nil ==> c != nil && fresh(c) && c.locAddr == locAddr && c.remAddr == remAddr && c.obs == obs && !c.closed && !c.bound && c.readDeadline != nil && c.readCh != nil
 //@   ensures err != nil ==> c == nil
 
 // every probe of a port is logged (ghost): assignPort reports exhaustion only after probing the whole range
@@ -785,5 +785,5 @@ package vnet
 //@ property C15: TokenBucketFilter.refillTokens, TokenBucketFilter.drainQueue, TokenBucketFilter.run, TokenBucketFilter.onInboundChunk, chunkQueue.push, chunkQueue.pop, chunkQueue.peek
 //@ property C01: chunkUDP.SourceAddr, chunkUDP.DestinationAddr, chunkUDP.UserData, chunkUDP.Network, chunkUDP.Clone, chunkUDP.setSourceAddr, chunkUDP.setDestinationAddr, Router.processChunks, Router.push, Router.onInboundChunk, Net.write, Net.onInboundChunk, UDPConn.WriteTo, UDPConn.ReadFrom, UDPConn.onInboundChunk, chunkQueue.push, chunkQueue.pop, chunkQueue.peek, udpConnMap.find
 //@ property C13: Router.assignIPAddress, Router.addNIC, udpConnMap.insert, udpConnMap.find, udpConnMap.delete, newUDPConn, UDPConn.onInboundChunk, UDPConn.Close, Net.onInboundChunk, Net.onClosed, Net.allocateLocalAddr, Net.assignPort, Net._dialUDP
-//@ property C10: UDPConn.ReadFrom, UDPConn.Read, UDPConn.SetReadDeadline, UDPConn.SetDeadline
+//@ property C10: newUDPConn, UDPConn.ReadFrom, UDPConn.Read, UDPConn.SetReadDeadline, UDPConn.SetDeadline
 //@ property C16: NewLossFilter, LossFilter.onInboundChunk
